@@ -41,7 +41,7 @@ def _compile(rep, real='double'):
     exe = os.path.join(OUT, 'bin', os.path.basename(cpp)[:-4] + '_' + real)
     objs = []
     if rep.get('link_fragments') or rep.get('link_functions'):
-        parts = ['#include "vp.h"', 'int vp_thrown; size_t vp_gk, vp_gj;']
+        parts = ['#include "vp.h"', 'int vp_thrown; size_t vp_gk, vp_gj, vp_gm;']
         for fn in rep.get('link_functions', []):
             parts.append(BLD.emit_function(fn, {})['text'])
         frees = []
